@@ -41,6 +41,14 @@ OwnBases == {
   Base("empty-page-fontface", <<Page("", <<>>, <<>>), Style(<<"a">>, OneDecl), FontFace(<<>>), Page(":first", OneDecl, <<Margin("@top-left", <<>>)>>)>>),
   Base("unknown", <<Unknown("@x y;"), Style(<<"a">>, OneDecl), Unknown("@x y { z }"), Media(<<"print">>, <<Unknown("@x y;"), Style(<<"a">>, OneDecl)>>),
         Media(<<"tv">>, <<Unknown("@x y;")>>)>>),
+  \* unknown at-rules nested in declaration blocks: a block that holds one is not empty, whatever happens to its comments
+  Base("unknown-in-block", <<Style(<<"a">>, <<Cm("/*d*/"), [k |-> "unknown", text |-> "@x y;"], Cm("/*e*/")>>), Style(<<"b">>, <<Cm("/*d*/")>>),
+        Style(<<".c">>, <<[k |-> "unknown", text |-> "@x y;"], D("left", Px("1px"), "")>>),
+        Media(<<"print">>, <<Style(<<"a">>, <<[k |-> "unknown", text |-> "@x y;"], Cm("/*d*/")>>), Style(<<"b">>, <<Cm("/*e*/")>>)>>),
+        Page("", <<[k |-> "unknown", text |-> "@x y;"], D("left", Px("1px"), "")>>, <<>>)>>),
+  \* the adapter moves every margin box of this base to another area AFTER parsing (margin = "@bottom-center"): literal keywords must
+  \* be those of the rule as it is now
+  Base("margin-retargeted", <<Page("", OneDecl, <<Margin("@top-left", OneDecl)>>), Page(":first", <<>>, <<Margin("@top-left", <<D("color", Red, "")>>)>>)>>),
   Base("ns-top", <<Ns("", "d"), Ns("p", "u"), Ns("q", "v"), Style(<<"p|a">>, OneDecl), Style(<<".c">>, OneDecl)>>),
   Base("ns-media", <<Ns("p", "u"), Ns("q", "v"), Media(<<"print">>, <<Style(<<"q|a">>, OneDecl)>>), Style(<<"a">>, OneDecl)>>),
   Base("ns-nested", <<Ns("p", "u"), Ns("q", "v"), Media(<<"print">>, <<Media(<<"tv">>, <<Style(<<"a", "p|a > .c">>, OneDecl)>>)>>)>>),
@@ -76,7 +84,7 @@ OwnBases == {
   Base("variables-upper", <<[k |-> "variables", text |-> "@variables { C: red; w: 1px }", vars |-> <<[name |-> "c", value |-> Red], [name |-> "w", value |-> Px("1px")]>>],
         Style(<<"a">>, <<D("color", <<Var("var(c)")>>, ""), D("left", <<Var("var(w)")>>, "")>>)>>),
   Base("spellings", <<[k |-> "charset", enc |-> "utf-8"], Import("x.css", "string", <<>>, "none"), Ns("p", "u"),
-        Style(<<"p|a">>, <<D("color", <<C("COLOR_VALUE", "#abc")>>, ""), D("left", Px("0.5px"), "important"), D("top", Px("-0.5em"), ""),
+        Style(<<"p|a">>, <<D("color", <<C("COLOR_VALUE", "#abc")>>, ""), D("left", Px("0.5px"), "important"), D("top", Px("-0.5em"), ""), D("right", Px("-1.5px"), ""), D("bottom", Px("-12.25em"), ""),
                            D("width", <<C("PERCENTAGE", "0.5%")>>, ""), D("margin", <<C("NUMBER", "0"), C("DIMENSION", "1.5px"), C("DIMENSION", "10px")>>, "")>>),
         Media(<<"print">>, <<Style(<<"a">>, <<D("left", Px("0.25px"), "important")>>)>>),
         Page(":first", <<D("left", Px("0.5px"), "")>>, <<Margin("@top-left", <<D("color", <<C("COLOR_VALUE", "#abc")>>, "important")>>)>>),
